@@ -3,6 +3,7 @@ package checks
 import (
 	"fmt"
 	"math"
+	"os"
 	"strings"
 	"time"
 
@@ -17,7 +18,7 @@ import (
 type c01factors [13]int
 
 var c01names = []string{"creation", "type", "import", "getter", "must_getter", "default_must_getter", "scope", "tags", "calls", "fields", "decorator", "stub", "files"}
-var c01levels = []int{10, 3, 5, 2, 3, 3, 4, 3, 4, 3, 2, 2, 2}
+var c01levels = []int{10, 4, 5, 2, 3, 3, 4, 3, 4, 3, 2, 2, 2}
 
 func c01ref(imp int, sym string) (string, bool) {
 	switch imp {
@@ -89,11 +90,11 @@ func c01cfg(f c01factors) (cfg *Cfg, local bool, ok bool) {
 	// mistake in the configuration, outside the statement's precondition "every named symbol exists")
 	switch f[0] {
 	case 3:
-		if f[1] == 2 {
+		if f[1] == 2 || f[1] == 3 {
 			return nil, false, false
 		}
 	case 4, 5:
-		if f[1] == 1 {
+		if f[1] == 1 || f[1] == 3 {
 			return nil, false, false
 		}
 	case 6, 7:
@@ -107,6 +108,12 @@ func c01cfg(f c01factors) (cfg *Cfg, local bool, ok bool) {
 			s.Type = P(use(tyBase))
 		case 2:
 			s.Type = P("*" + use(tyBase))
+		case 3:
+			// a type from a package nothing else refers to (only printed when the service has a getter)
+			if f[0] > 2 {
+				return nil, false, false
+			}
+			s.Type = P(`*"fx/b/pkg".Obj`)
 		}
 	}
 	if f[3] == 1 {
@@ -394,6 +401,53 @@ func init() {
 						})
 					}
 				}
+			}
+			// rewriting an existing output: a smaller configuration (or the stub) written over a larger previous
+			// generation must leave exactly what a fresh build writes
+			big := &Cfg{Meta: stdMeta(), Params: []Param{{"pInt", 7}, {"pStr", "a%pInt%b"}, {"pLong", strings.Repeat("long value ", 300)}},
+				Services: []Service{{Name: "one", Constructor: P("pk.New"), Args: []any{"%pStr%", "%pLong%"}, Getter: P("GetOne"), MustGetter: P(true)}, {Name: "two", Constructor: P("pk2.New"), Args: []any{"@one"}}, {Name: "three", Value: P("&pk.Obj{}")}}}
+			small := &Cfg{Meta: stdMeta(), Services: []Service{{Name: "one", Constructor: P("pk.New"), Getter: P("GetOne")}}}
+			seqs := []struct {
+				id    string
+				steps []struct {
+					cfg   *Cfg
+					flags []string
+				}
+			}{
+				{"big-then-small", []struct {
+					cfg   *Cfg
+					flags []string
+				}{{big, nil}, {small, nil}}},
+				{"normal-then-stub", []struct {
+					cfg   *Cfg
+					flags []string
+				}{{big, nil}, {big, []string{"--stub"}}}},
+				{"big-small-big-stub", []struct {
+					cfg   *Cfg
+					flags []string
+				}{{big, nil}, {small, nil}, {big, nil}, {small, []string{"--stub"}}}},
+			}
+			for _, sq := range seqs {
+				sq := sq
+				w.Case("rewrite/"+sq.id, func(c *C) {
+					w.FreshDir()
+					c.Distinct("all", c.ID)
+					c.Distinct("nontrivial", c.ID)
+					for si, st := range sq.steps {
+						os.WriteFile("c.yaml", []byte(st.cfg.YAML()), 0o644)
+						r := Tool(DefaultVersion, DefaultBuildInfo, append([]string{"-i", "c.yaml", "-o", "out.go"}, st.flags...)...)
+						got, _ := os.ReadFile("out.go")
+						os.Remove("fresh.go")
+						Tool(DefaultVersion, DefaultBuildInfo, append([]string{"-i", "c.yaml", "-o", "fresh.go"}, st.flags...)...)
+						want, _ := os.ReadFile("fresh.go")
+						c.Count("accepted")
+						if !r.OK() || string(got) != string(want) {
+							c.Violation("rewrite-differs", fmt.Sprintf("step %d of %s: the -o file written over a previous generation differs from a fresh build (%d vs %d bytes): %s", si, sq.id, len(got), len(want), firstDiff(string(want), string(got))), map[string]string{"c.yaml": st.cfg.YAML()}, nil)
+							return
+						}
+						c01static(w, c, c.ID, string(got), false, len(st.flags) > 0, nil)
+					}
+				})
 			}
 			// really compiled covering subset: all single departures (thorough: pairs), normal and stub
 			kk := 1
